@@ -472,6 +472,14 @@ def fromvalue_rule(chk, P, prefix, types):
                 return False, ("%s::from_value does not fall back to Value::parse (the value's text form, whatever captured or "
                                "buffered it)%s: a Display-captured, formatted or owned/buffered value would no longer be "
                                "recognised" % (ty, "; it only looks at %s" % narrow[0].callee.get("name") if narrow else "")), [], (narrow[0].loc if narrow else b.span)
+            # nothing answers before the typed value has been tried: a shortcut in front of it (an exact-text match on a borrowed string,
+            # say) decides for the values it recognises and so by-passes the lenient text parser for them
+            top = [c for c in dc if c.body is b]
+            if top and not b.must_pass([top[0].bb]):
+                early = [c for c in b.calls(normal_only=True) if c.callee.get("name") in ("to_borrowed_str", "to_str", "to_cow_str", "cast") and not b.dominates(top[0].bb, c.bb)]
+                return False, ("%s::from_value can return without trying the typed value and the text parser%s: values that path recognises are "
+                               "decided by it alone (exact spelling instead of the parser's case/whitespace/abbreviation rules)"
+                               % (ty, " (a shortcut through %s at %s)" % (early[0].callee.get("name"), early[0].loc) if early else "")), [], (early[0].loc if early else b.span)
             # parse applies to the value parameter itself
             for c in pr:
                 o = c.body.origin(c.args[0])
